@@ -98,8 +98,23 @@ class InProcess:
 
     def __call__(self, cmd, stdout=None, input=None, check=False,
                  shell=False, **kwargs):
-        code, out = command(list(cmd), input or b"")
+        # text mode as subprocess.run implements it: str in, str out, with
+        # universal-newline translation of what the child printed
+        text_mode = bool(kwargs.get("encoding") or kwargs.get("errors")
+                         or kwargs.get("text")
+                         or kwargs.get("universal_newlines"))
+        data = input if input is not None else b""
+        if text_mode:
+            if not isinstance(data, str):
+                raise TypeError("a str is required in text mode")
+            data = data.encode(kwargs.get("encoding") or "utf-8")
+        elif isinstance(data, str):
+            raise TypeError("a bytes-like object is required, not 'str'")
+        code, out = command(list(cmd), data)
         self.log.append((cmd[1], code))
+        if text_mode:
+            out = out.decode(kwargs.get("encoding") or "utf-8").replace(
+                "\r\n", "\n").replace("\r", "\n")
         if code != 0 and check:
             raise subprocess.CalledProcessError(code, cmd)
         return subprocess.CompletedProcess(cmd, code, stdout=out)
